@@ -219,6 +219,12 @@ func (ex *Exec) ghostSort(name string) string {
 		return sInt
 	case "isOpen":
 		return arrSort(sInt, sBool)
+	case "ctx.bounded":
+		return arrSort(sInt, sBool)
+	case "rdSet":
+		return arrSort(sInt, sBool)
+	case "http.reqctx":
+		return arrSort(sInt, sInt)
 	case "cache.has":
 		return arrSort(sStr, sBool)
 	case "dns.ans":
